@@ -87,6 +87,7 @@ type vworld struct {
 	lines  int
 	gen    time.Time
 	counts map[string]int
+	broken bool
 }
 
 func (w *vworld) emit(v any) {
@@ -221,11 +222,19 @@ type vio struct {
 }
 
 type vtx struct {
-	Signer string `json:"signer"`
+	Signer string `json:"signer"` // first signer: pays the fee
 	Fee    int64  `json:"fee"`
 	Msgs   []vmsg `json:"msgs"`
+	cosign string // second signer (its message is part of Msgs), "" for none
 	badSig bool
 	gw     int64
+}
+
+func (t *vtx) signers() []string {
+	if t.cosign != "" {
+		return []string{t.Signer, t.cosign}
+	}
+	return []string{t.Signer}
 }
 
 func zc() map[string]int64 { return map[string]int64{"u": 0, "t": 0} }
@@ -278,8 +287,21 @@ func (w *vworld) build(t *vtx, bump map[string]uint64) std.Tx {
 			msgs = append(msgs, vm.NewMsgCall(w.addrs[m.From], coinsOf(m.Send), bankPath, m.Fn, args))
 		}
 	}
-	num, seq := accNumSeq(w.e, signer.Addr)
-	tx := appenv.SignTx(msgs, t.gw, t.Fee, appenv.ChainID, signer, num, seq+bump[t.Signer])
+	_ = signer
+	tx := std.Tx{Msgs: msgs, Fee: std.Fee{GasWanted: t.gw, GasFee: std.Coin{Denom: denomU, Amount: t.Fee}}}
+	for _, n := range t.signers() {
+		k := w.accts[n]
+		num, seq := accNumSeq(w.e, k.Addr)
+		sb, err := tx.GetSignBytes(appenv.ChainID, num, seq+bump[n])
+		if err != nil {
+			panic(err)
+		}
+		sig, err := k.Priv.Sign(sb)
+		if err != nil {
+			panic(err)
+		}
+		tx.Signatures = append(tx.Signatures, std.Signature{PubKey: k.Priv.PubKey(), Signature: sig})
+	}
 	if t.badSig {
 		tx.Signatures[0].Signature[5] ^= 0x04
 	}
@@ -430,7 +452,9 @@ func (w *vworld) block(dt int, txs []*vtx) {
 		var r = w.e.Deliver(w.build(t, bump))
 		d := done{t: t, ok: r.IsOK(), ante: r.GasWanted > 0, cls: appenv.ErrClass(r.Error)}
 		if d.ante {
-			bump[t.Signer]++ // the sequence moved in the block's working state
+			for _, n := range t.signers() {
+				bump[n]++ // the sequence moved in the block's working state
+			}
 		}
 		ds = append(ds, d)
 		w.counts["tx"]++
@@ -463,15 +487,30 @@ func (w *vworld) block(dt int, txs []*vtx) {
 		}
 	}
 	for _, d := range ds {
-		w.emit(map[string]any{"act": "Tx", "t": rel, "signer": d.t.Signer, "fee": d.t.Fee, "ante": d.ante, "ok": d.ok, "msgs": d.t.Msgs})
+		w.emit(map[string]any{"act": "Tx", "t": rel, "signer": d.t.Signer, "signers": d.t.signers(), "fee": d.t.Fee, "ante": d.ante, "ok": d.ok, "msgs": d.t.Msgs})
 	}
 	w.emit(map[string]any{"act": "Commit", "t": rel, "st": st.stJSON(false)})
-	w.flag(st)
+	cos := false
+	for _, d := range ds {
+		if d.ante && d.t.cosign == "coll" {
+			cos = true // an accepted transaction co-signed by the fee collector at position >= 1
+		}
+	}
+	w.flag(st, cos)
 }
 
 // flag reports raw well-formedness findings and broken repository invariants on the committed
 // state directly (they are also part of the trace: bankinv must be TRUE in every recorded state).
-func (w *vworld) flag(st *dump) {
+func (w *vworld) flag(st *dump, collectorCosigned bool) {
+	if w.broken {
+		return // reported once: a broken supply record stays broken in every later block
+	}
+	if !st.BankInv && collectorCosigned {
+		w.broken = true
+		mbt.Mismatch("C14:ante:collector-cosigner:fee-destroyed", "after a transaction co-signed by the fee collector (second signer) bank.AllInvariants is broken on the committed state: "+st.bankMsg,
+			map[string]any{"seed": os.Getenv("VERIF_SEED"), "line": w.lines})
+		return
+	}
 	if len(st.bad) > 0 {
 		mbt.Mismatch("C14:app:raw-store", fmt.Sprintf("committed state of the application is not well-formed: %v", st.bad), map[string]any{"seed": os.Getenv("VERIF_SEED"), "line": w.lines})
 	}
@@ -479,6 +518,7 @@ func (w *vworld) flag(st *dump) {
 		mbt.Mismatch("C14:app:auth-invariant", "auth.AllInvariants broken on committed state: "+st.authMsg, map[string]any{"seed": os.Getenv("VERIF_SEED"), "line": w.lines})
 	}
 	if !st.BankInv {
+		w.broken = true
 		mbt.Mismatch("C14:app:bank-invariant", "bank.AllInvariants broken on committed state: "+st.bankMsg, map[string]any{"seed": os.Getenv("VERIF_SEED"), "line": w.lines})
 	}
 }
@@ -491,13 +531,12 @@ func record(f *mbt.Flags) {
 	}
 	w := &vworld{rng: rng, out: bufio.NewWriterSize(outf, 1<<16), accts: map[string]*appenv.Account{}, addrs: map[string]crypto.Address{},
 		names: map[crypto.Address]string{}, counts: map[string]int{}}
-	for _, n := range []string{"a", "b", "c", "v", "w", "x", "y", "dpl"} {
+	for _, n := range []string{"a", "b", "c", "v", "w", "x", "y", "dpl", "coll"} { // the fee collector is a keyed account here (it is a governance-settable address)
 		w.accts[n] = appenv.NewAccount("bank-" + n)
 		w.addrs[n] = w.accts[n].Addr
 	}
 	w.addrs["realm"] = appenv.PkgAddr(bankPath)
 	w.addrs["dep"] = appenv.DepositAddr(bankPath)
-	w.addrs["coll"] = auth.DefaultParams().FeeCollector
 	for n, a := range w.addrs {
 		w.names[a] = n
 	}
@@ -506,10 +545,11 @@ func record(f *mbt.Flags) {
 	vEnd := int64(1500 + rng.Intn(500))
 	e, err := appenv.New(appenv.Options{
 		Time:     w.gen,
-		Balances: map[crypto.Address]int64{w.addrs["a"]: 300_000_000, w.addrs["b"]: 200_000_000, w.addrs["c"]: 250_000_000, w.addrs["dpl"]: 100_000_000},
+		Balances: map[crypto.Address]int64{w.addrs["a"]: 300_000_000, w.addrs["b"]: 200_000_000, w.addrs["c"]: 250_000_000, w.addrs["dpl"]: 100_000_000, w.addrs["coll"]: 20_000_000},
 		Deployer: w.accts["dpl"],
 		Pkgs:     []appenv.Pkg{{Path: bankPath, Files: map[string]string{"bank.gno": bankSrc}}},
 		Mutate: func(gs *gnoland.GnoGenesisState) {
+			gs.Auth.Params.FeeCollector = w.addrs["coll"]
 			gs.Balances = append(gs.Balances, gnoland.Balance{Address: w.addrs["v"], Amount: std.Coins{{Denom: denomU, Amount: 3_000_000}},
 				Vesting: &std.VestingSchedule{OriginalVesting: std.Coins{{Denom: denomU, Amount: 1_000_000}}, StartTime: w.gen.Unix() + 10, EndTime: w.gen.Unix() + vEnd}})
 		},
@@ -520,7 +560,7 @@ func record(f *mbt.Flags) {
 	w.e = e
 	st0 := w.committedDump()
 
-	w.flag(st0)
+	w.flag(st0, false)
 	w.emit(map[string]any{"act": "Init", "t": 0, "st": st0.stJSON(true)})
 	n := f.N
 	if n <= 0 {
@@ -554,9 +594,19 @@ func record(f *mbt.Flags) {
 		}
 		w.block(1+rng.Intn(9), txs)
 	}
+	// the fee collector signs: alone, as first signer (pays itself) with a co-signer, and as SECOND signer of a
+	// transaction whose fee it receives. The ante handler's effect on balances must be the fee transfer in all three.
+	mk := func(from, to string) vmsg {
+		return vmsg{Kind: "send", From: from, To: to, Amt: cz(int64(1000+rng.Intn(5000)), 0), Send: zc(), Ins: []vio{}, Outs: []vio{}}
+	}
+	w.block(2, []*vtx{{Signer: "coll", Fee: 120_000, gw: 30_000_000, Msgs: []vmsg{mk("coll", "a")}}})
+	w.block(2, []*vtx{{Signer: "coll", cosign: "a", Fee: 130_000, gw: 30_000_000, Msgs: []vmsg{mk("coll", "x"), mk("a", "y")}}})
+	w.counts["collector-first-signer"]++
+	w.block(2, []*vtx{{Signer: "a", cosign: "coll", Fee: 150_000, gw: 30_000_000, Msgs: []vmsg{mk("a", "x"), mk("coll", "y")}}})
+	w.counts["collector-cosigner"]++
 	w.out.Flush()
 	outf.Close()
-	sum := map[string]any{"lines": w.lines, "blocks": n}
+	sum := map[string]any{"lines": w.lines, "blocks": n + 3}
 	for k, v := range w.counts {
 		sum["n_"+k] = v
 	}
